@@ -248,6 +248,9 @@ Definition code_of (r : api_result) : Z :=
        s = 5  valueOf that converts the next object (1)
        s = 6  f -> [1].forEach(callback -> f): script frame, native frame, callback frame (3)
        s = 7  f -> "a".replace(/a/, callback -> f) (3)
+   k = 29: Otto.Copy(); the history goes on in the copy (and a second 29 in the
+       copy of the copy).  The configured limit is a setting of the runtime and
+       travels with it, so the state of the model does not change.
    enterScope counts every scope, a global one entered while code is running
    included, so the number of nested scopes is cyc s * (d - 1) + 1 (d >= 1).
    Every step also reads the depth at rest afterwards (-1: no scope). *)
@@ -269,6 +272,7 @@ Definition stack_step (L : Z) (op : Z * Z) : Z * list Z :=
   let n := Z.to_nat f in
   let m := mode k in
   if k =? 0 then (d, [0; -1])
+  else if k =? 29 then (L, [0; -1])
   else if m =? 0 then (L, [code_of (run L (nest n)); cur (run_chain L (nest n))])
   else if m =? 1 then (L, [code_of (run L (Try (nest n) Ret)); cur (run_chain L (Try (nest n) Ret))])
   else (L, [match run L (nest (S n)) with ARet => f + 1 | r => - code_of r end; cur (run_chain L (nest (S n)))]).
@@ -287,6 +291,7 @@ Definition spec_step (L : Z) (op : Z * Z) : Z * list Z :=
   let m := mode k in
   let over (n : Z) := negb (L =? 0) && (L <=? n) in
   if k =? 0 then (d, [0; -1])
+  else if k =? 29 then (L, [0; -1])
   else if m =? 0 then (L, [if over f then RangeErr else 0; -1])
   else if m =? 1 then (L, [0; -1])
   else (L, [if over (f + 1) then - RangeErr else f + 1; -1]).
@@ -343,10 +348,15 @@ Definition spec_payload (pk : Z) : payload := payload_of pk.
    accessors: 0 String 1 ToString 2 ToInteger 3 ToFloat 4 ToBoolean 5 Class 6 IsNaN 7 Export
    8 Object.Keys 9 Object.KeysByParent 10 Object.Get 11 Object.Set 12 Object.Call 13 Object.MarshalJSON
    14 Is* 15 Call.
-   Still open: Object.Set on a bridged nil map (class 7).  ToInteger/ToFloat/IsNaN on a UTF-16
+   25 object with a throwing getter 26 array with a throwing index getter 27 Error whose message getter throws
+   28 object with a quiet getter.
+   Still open: Object.Set on a bridged nil map (class 7); Value.Export runs getters outside catchPanic, so a
+   getter that throws escapes it (class 16, C02-export-unprotected).  ToInteger/ToFloat/IsNaN on a UTF-16
    backed string (06c26f0) and IsNaN outside catchPanic (239ed11) are repaired: no accessor may panic there. *)
 Definition acc_known (vk acc : Z) : option Z :=
-  if (vk =? 16) && (acc =? 11) then Some 7 else None.
+  if (vk =? 16) && (acc =? 11) then Some 7
+  else if ((vk =? 25) || (vk =? 26) || (vk =? 27)) && (acc =? 7) then Some 16
+  else None.
 
 Definition verdict_acc (vk acc obs : Z) : Z * Z :=
   match acc_known vk acc with
